@@ -180,3 +180,4 @@ Example C10_combined_warm_nonvacuous : forall r,
   WarmCombHist.wc_hyps (WarmCombHist.wc_tree r) = (true, false, true, false, true, true, true) /\
   WarmCombHist.wc_hyps (WarmCombHist.wc_small r) = (true, false, true, false, true, true, true).
 Proof. exact WarmCombHist.wc_tree_hyps. Qed.
+Print Assumptions C10_combined_warm_nonvacuous.
